@@ -21,7 +21,7 @@ SPEC = {
          'src': 'harness/pkg/reader/c18_test.go', 'test': 'TestVerif_C18_bitmap',
          'sinks': {'C18_bitmap': 'bm_judge'}, 'n': {'quick': 600, 'thorough': 40000}},
         {'pkg': 'pkg/reader', 'pkgname': 'reader',
-         'src': 'harness/pkg/reader/c18_test.go', 'test': 'TestVerif_C18_conv',
+         'src': ['harness/pkg/reader/c18_test.go', 'harness/pkg/reader/c18conv_test.go'], 'test': 'TestVerif_C18_conv',
          'sinks': {'C18_conv': 'conv_judge'}, 'n': {'quick': 250, 'thorough': 10000}},
     ],
     'rule': 'hseq/rseq: event histories (start, poll, read, close) of classes mixed (success with changed config / failure / '
